@@ -53,14 +53,22 @@ def zipLines : List Nat → List (List Char) → List Char
   | _ :: is, [] => zipLines is []
   | i :: is, l :: ls => lineColumn i ++ l ++ ['\n'] ++ zipLines is ls
 
+/-- start of the line `pos` lies on (`find_prev_line_break_pos(.., false).map(|v| v + 1).unwrap_or(0)`) -/
+def lineStartOf (b : Bytes) (pos : Nat) : Nat :=
+  match findPrevLB b pos false with | some v => v + 1 | none => 0
+
+/-- end of the line `pos` lies on (`find_next_line_break_pos(.., false).unwrap_or(len)`) -/
+def lineEndOf (b : Bytes) (pos : Nat) : Nat :=
+  match findNextLB b pos false with | some v => v | none => b.length
+
 /-- `build_pretty_string_item` -/
 def buildItem (b : Bytes) (start stop : Nat) (isRemoval coloring : Bool) (lineRange : Option (Nat × Nat)) :
     R (List Char) := do
   let len ← subU stop start
   if len = 0 ∨ b.isEmpty then return []
-  let lineStart := match findPrevLB b start false with | some v => v + 1 | none => 0
-  let lineEndStart := match findPrevLB b (stop - 1) false with | some v => v + 1 | none => 0
-  let lineEnd := match findNextLB b (stop - 1) false with | some v => v | none => b.length
+  let lineStart := lineStartOf b start
+  let lineEndStart := lineStartOf b (stop - 1)
+  let lineEnd := lineEndOf b (stop - 1)
   let colorEnd := min stop lineEnd
   let (mStartCol, mEndCol, startCol, resetCol) :=
     if coloring then (colGreen, colGreen, if isRemoval then colRed else colYellow, colReset)
